@@ -44,7 +44,7 @@ CHECKS = {
          "Hundreds of 10..60-label utterances x 3 GV weights on the bundled voice and perturbed copies: per-coefficient variance within 20 % of weight x GV mean (measured 6 %), monotone in the weight; silence-only utterances equal the plain ML solution bitwise; non-GV stream untouched; voice sets with different GV statistics; copies whose header clears USE_GV while keeping the GV data must behave as streams without GV.",
          "Eligibility computed with the harness's own glob matcher on the label text.", "4/C12"),
  "C13": ("exploration", "PBT with a physical oracle: measured pulse response vs minimum-phase impulse response of K/A(z~)^s computed independently (polynomial LSP->LPC, homomorphic IR)",
-         "Generated LSP sets (orders 2..24 even/odd, stages 1..4, alpha, linear/log gain, minimal spacing) compared in the time domain (1e-6 of the peak) and in log-magnitude (0.001 neper within 100 dB of the peak); the same after generated frame histories; generated LSP voice FILES: engine output == Vocoder built from the stage / gain convention / alpha written into the file.",
+         "Generated LSP sets (orders 2..24 even/odd, stages 1..4, alpha, linear/log gain, minimal spacing) compared in the time domain (1e-6 of the peak) and in log-magnitude (0.001 neper within 100 dB of the peak); the same after generated frame histories (frame period 1, and long frames on one vocoder); generated LSP voice FILES: engine output == Vocoder built from the stage / gain convention / alpha written into the file.",
          "Truncation of the finite measurement window is cancelled by truncating the reference identically.", "4/C13"),
  "C14": ("exploration", "PBT, metamorphic: pulse responses with and without the postfilter vs the closed-form (1+beta) law and energy equality",
          "Generated cepstra x beta: spectral relation constant within 0.005 neper, energy within 1 %, bitwise no-op for beta = 0 and length 2; the same after generated frame histories; the first pulse after unvoiced frames (isolated by differencing a 20-Hz and a 40-Hz rendering) equals the stationary response.",
